@@ -43,6 +43,7 @@ class Exec(Engine):
         mi = self.modinfo_of(st)
         v = self.lookup_module(mi, name)
         if v is not None: return v
+        if getattr(self.reg, 'dyn', False): return V(MOD, Dotted('?.' + name))
         raise Unsupported('unbound name %s at %s' % (name, self.loc(node)))
 
     def modinfo_of(self, st):
@@ -488,6 +489,9 @@ class Exec(Engine):
         if isinstance(t, OpaqueT):
             key = t.n + '.' + attr
             if key in self.reg.attr_models: return self.reg.attr_models[key](self, st, b, node)
+            if t.n == 'Dyn':
+                from . import dyn
+                return [(st, V(t, dyn.ATTR(b.z, z3.StringVal(self.mangle(st, attr)))))]
             return [(st, V(FUNC, BoundModel(key, b)))]
         if isinstance(t, RecT):
             return [(st, V(FUNC, BoundBuiltin(attr, b)))]
@@ -675,11 +679,17 @@ class Exec(Engine):
                     return self.call_named(st, c.name, args, kwargs, node)
                 if isinstance(c.node, ast.Lambda) or getattr(c, 'nested', False):
                     return self.inline(st, c, args, kwargs, node)
+                if getattr(self.reg, 'dyn', False):
+                    from . import dyn
+                    return dyn.call_unknown(self, st, c.name, args, kwargs, node)
                 raise Unsupported('call to uncontracted function %s at %s' % (c.name, self.loc(node)))
             if isinstance(c, BoundMethod): return self.call_method(st, c, args, kwargs, node)
             if isinstance(c, BoundBuiltin): return self.call_builtin_method(st, c.recv, c.name, args, kwargs, node)
             if isinstance(c, BoundModel):
                 return self.call_named(st, c.name, [c.recv] + args, kwargs, node)
+        if isinstance(f.t, OpaqueT) and f.t.n == 'Dyn':
+            from . import dyn
+            return dyn.call_value(self, st, f, args, kwargs, node)
         if isinstance(f.t, OpaqueT):
             key = f.t.n + '.__call__'
             return self.call_named(st, key, [f] + args, kwargs, node)
@@ -703,6 +713,9 @@ class Exec(Engine):
             self.assume_note('opaque call %s: result unconstrained value of type %s, no effects' % (name, o))
             st.trace.append(('call', name))
             return [(st, self.fresh(st, o, name.split('.')[-1]) if o is not None else mk_none())]
+        if getattr(self.reg, 'dyn', False):
+            from . import dyn
+            return dyn.call_unknown(self, st, name, args, kwargs, node)
         raise Unsupported('call to %s at %s (no contract, model or opaque declaration)' % (name, self.loc(node)))
 
     def unopt_if_known(self, st, v):
@@ -725,6 +738,9 @@ class Exec(Engine):
         if bm.node is not None and (self.reg.inline_ok(qual)):
             clo = Closure(bm.node, {}, bm.cls, ci.modinfo if ci else None, name=qual)
             return self.inline(st, clo, allargs, kwargs, node)
+        if getattr(self.reg, 'dyn', False):
+            from . import dyn
+            return dyn.call_unknown(self, st, qual, allargs, kwargs, node)
         raise Unsupported('call to uncontracted method %s at %s' % (qual, self.loc(node)))
 
     def note_source(self, mi, fnode):
